@@ -3,7 +3,10 @@ import vlib
 from props import c1517_common as cm
 
 hx = vlib.hx
-MODULES = ["Percival.Properties.C15"]
+# the command-line parser's memory safety (`never_out_of_bounds`, abandoned parse + reset) is C18's model and
+# harness; both are part of this property's check as well
+from props import c18 as _c18
+MODULES = ["Percival.Properties.C15", "Percival.Properties.C18"]
 
 JSON_ALPHA = b'{}[]:,"\\u0a1-+.eE tnf\n\0\x80'
 
@@ -277,10 +280,10 @@ def components(ctx):
 
 def check(ctx):
     return vlib.standard_check(
-        ctx, MODULES, components(ctx),
+        ctx, MODULES, components(ctx) + _c18.components(ctx),
         assumptions=["libc string/stdio functions (strlen strchr strrchr strcspn strcmp strdup strcpy fgets fgetc strto*max strtod "
                      "inet_pton getaddrinfo) stay inside NUL-terminated strings / their buffers as ISO C and POSIX say",
                      "host-name forms of sock_resolve (handed to getaddrinfo) are excluded, as in the property",
-                     "getopt, humansize_parse and PARSENUM are modelled by C18/C16; here they are only observed under ASan"],
+                     "humansize_parse and PARSENUM are modelled by C16 (here only observed under ASan); getopt is covered by C18's model, theorems and harness, which this check runs as well"],
         trusted=["pmodel (compiled Lean model)", "harness/h_parsers.c",
                  "gcc ASan/UBSan + exact-size heap blocks as the detector of out-of-bounds accesses in the real code"])
